@@ -40,6 +40,18 @@ def packaging_ops(chk):
     return None, None
 
 
+def _model_rejects(text):
+    if text == "<empty>":
+        return False
+    try:
+        for part in text.split("||"):
+            if part != "<empty>":
+                pkgmodel.SpecifierSetVal(part)
+    except PyRaise:
+        return True
+    return False
+
+
 def run(chk):
     src = str(chk.src)
     chk.explanation = (
@@ -70,9 +82,16 @@ def run(chk):
     # R17.3
     d = VerDomain(src)
     valid = [">=1.0", ">=1.0,<2.0", "==1.*", "!=1.4.*,>1", "~=1.4.2", "<empty>", ">=1||<0.5", "<empty>||>=1", "==1!2.0", "~=1!1.0", "==1!1.*",
-             "", " >= 1.0 , < 2 ", "||", "~=1.0.POST1", ">=1.0a1,<1.0rc1", "!=1.5", "===1.5"]
+             "", " >= 1.0 , < 2 ", "||", "~=1.0.POST1", ">=1.0a1,<1.0rc1", "!=1.5", "===1.5",
+             # contradictory / redundant clause sequences followed by further clauses (the fold must stay total)
+             ">=2,<1,!=1.5", "==1.0,==2.0,!=1.0.*", "~=2.1,<2,!=2.0.dev1", "<1,>=2,~=3.1", ">=1,<=1,!=1", "!=1.*,==1.5,>=0", "==1.0,!=1.0,<3,>2",
+             ">=1.0", "==1!3.*", "<1||>=2.0.dev1", ">=1,<2||>=2,<3||==5.*", "!=1.5,!=1.6,!=1.7.*,>1,<2"]
     invalid = ["abc", ">>1", "=1.0", "~=1", "==1.*.2", ">=1.0 <2", "1.0", "==1.0.*.post1", "~=1.*", ">=1.*", "<1.0.*", "==", ">=1.0||>>2",
-               "!1.0", "==1..0", ">=1.0,abc", "~=1.0a", "== 1.0 ; python_version", ">=v", "<empty>||abc"]
+               "!1.0", "==1..0", ">=1.0,abc", "~=1.0a", "== 1.0 ; python_version", ">=v", "<empty>||abc",
+               # near misses of texts parsed just before (a history-keyed cache must not accept them), blanks in forbidden positions
+               "> = 1.0", "==1! 3.*", "<1| |>=2.0.dev1", "<emp ty>", ">=1 .0", "= =1.0", "~ =1.4.2",
+               # characters that are special to str.format / % / regex when a message is built from the rejected text
+               ">=1.{", ">=1.0,<2}", ">={version}", ">=1.0,{}", "~=1.0||<{", "{0}", "%s", ">=1.0%d", ">=1.0\\", ">=1.0,[", "(>=1.0", ">=1.0)"]
     for t in valid:
         chk.instance("R17.3")
         try:
@@ -88,8 +107,13 @@ def run(chk):
         chk.instance("R17.3")
         try:
             r = d.parse(t)
-            chk.notes.append(f"model grammar: {t!r} unexpectedly accepted -> {d.show(r)}")
-            chk.ok("R17.3", key=("accepted", t), nontrivial=False)
+            if _model_rejects(t):
+                chk.fail("R17.3", "dep_logic.specifiers:parse_version_specifier:accepts-invalid",
+                         f"parse_version_specifier({t!r}) returns {d.show(r)} although the specifier grammar rejects the text "
+                         f"(texts are parsed in sequence; an earlier valid text may have primed a cache)")
+            else:
+                chk.notes.append(f"model grammar: {t!r} accepted -> {d.show(r)}")
+                chk.ok("R17.3", key=("accepted", t), nontrivial=False)
         except PyRaise as e:
             exc = e.exc
             if isinstance(exc, AObj) and d.InvalidSpecifier in exc.cls.mro:
